@@ -1,6 +1,7 @@
 package scn
 
 import (
+	"syscall"
 	"encoding/json"
 	"fmt"
 	"net"
@@ -56,6 +57,10 @@ type c08sess struct {
 	// classification of what happened around crashes
 	stopInFlightAtCrash bool
 	stopRetBeforeCrash  bool
+	stopRetBeforeFullDisk bool // StopSession had returned when the process shut down with the disk full
+	activeAtFullDisk      bool // the session was active (drained) at that shutdown
+	orphanBeforeFullDisk  bool // the session had been recovered as an orphan by the process that shut down with the disk full
+	fullDiskEpoch         int  // crash count at that shutdown (a later crash is a cause of its own)
 	activeAtCrash       bool
 	startInFlightAtCrash bool
 	stopAckEpoch        int // crash epoch at which a Stop ack reached the client (-1 none)
@@ -77,6 +82,7 @@ type c08world struct {
 	maxFail  int
 	downTill time.Duration
 	ackLoss  int
+	slow     int // the next replies arrive late (inside the client timeout)
 	crashOn  bool
 	crashPm  int // per-mille crash probability per I/O step
 	crashes  int
@@ -136,6 +142,27 @@ func c08Gen(r *sim.Rand, tier string) *sim.Case {
 	if tier == "thorough" {
 		n = r.Range(4, 24)
 	}
+	if r.P(8) {
+		// motif: an Interim-Update is still outstanding (its first answer was lost) when the
+		// session is stopped; the process later restarts gracefully
+		cs.Knobs["interim"] = 1
+		cs.Ops = append(cs.Ops, sim.Op{K: "start", A: []int64{0}})
+		if r.P(50) {
+			cs.Ops = append(cs.Ops, sim.Op{K: "cnt", A: []int64{0, int64(r.U64() >> 1), 0x100000001}})
+		}
+		cs.Ops = append(cs.Ops, sim.Op{K: "sleep", A: []int64{11000}})
+		if r.P(70) {
+			cs.Ops = append(cs.Ops, sim.Op{K: "slow", A: []int64{1}})
+		} else {
+			cs.Ops = append(cs.Ops, sim.Op{K: "ackloss", A: []int64{int64(r.Range(1, 2))}})
+		}
+		for _, ms := range [][]int64{{5000, 1500, 1500, 1000, 100}, {5000, 5000, 100}, {11000}, {11000, 100}, {11000, 1500}}[r.N(5)] {
+			cs.Ops = append(cs.Ops, sim.Op{K: "sleep", A: []int64{ms}})
+		}
+		cs.Ops = append(cs.Ops, sim.Op{K: "stop", A: []int64{0, int64(r.Range(1, 18))}}, sim.Op{K: "sleep", A: []int64{int64(sim.Pick(r, 5000, 11000))}},
+			sim.Op{K: "gstop", A: []int64{int64(sim.Pick(r, 0, 1000)), 0}})
+		n = r.Range(0, 4)
+	}
 	started := map[int]bool{}
 	vals := []int64{0, 1, 0xFFFFFFFF, 0x100000000, 0x100000001, 0x7FFFFFFFFFFFFFFF, 0x1FFFFFFFF, 0xFFFFFFFF00000000 >> 1}
 	for i := 0; i < n; i++ {
@@ -161,9 +188,13 @@ func c08Gen(r *sim.Rand, tier string) *sim.Case {
 		case 4:
 			cs.Ops = append(cs.Ops, sim.Op{K: "outage", A: []int64{int64(sim.Pick(r, 1000, 4000, 9000, 20000))}})
 		case 5:
-			cs.Ops = append(cs.Ops, sim.Op{K: "ackloss", A: []int64{int64(r.Range(1, 2))}})
+			if r.P(35) {
+				cs.Ops = append(cs.Ops, sim.Op{K: "slow", A: []int64{int64(r.Range(1, 2))}})
+			} else {
+				cs.Ops = append(cs.Ops, sim.Op{K: "ackloss", A: []int64{int64(r.Range(1, 2))}})
+			}
 		case 6:
-			cs.Ops = append(cs.Ops, sim.Op{K: "gstop", A: []int64{int64(sim.Pick(r, 0, 1000, 30000))}})
+			cs.Ops = append(cs.Ops, sim.Op{K: "gstop", A: []int64{int64(sim.Pick(r, 0, 1000, 30000)), int64(r.Weighted(3, 1))}})
 		case 7:
 			cs.Ops = append(cs.Ops, sim.Op{K: "par"})
 		}
@@ -278,6 +309,9 @@ func (w *c08world) decide(p *radius.Packet, addr string) int {
 	} else if w.ackLoss > 0 {
 		w.ackLoss--
 		fail = sim.RadAckLoss
+	} else if w.slow > 0 {
+		w.slow--
+		return sim.RadSlow // not a failure: the answer arrives, late
 	}
 	if fail != sim.RadOK {
 		// stay inside the retry budget: a record never sees MaxRetries failures
@@ -490,6 +524,8 @@ func c08Run(c *sim.Ctx) {
 			c.S.Fault("radius.outage")
 		case "ackloss":
 			w.ackLoss += int(op.Arg(0))
+		case "slow":
+			w.slow += int(op.Arg(0))
 		case "gstop":
 			// C08 is not quantified over schedules: a graceful stop is a point in
 			// the history, not concurrent with API calls still in flight
@@ -498,8 +534,28 @@ func c08Run(c *sim.Ctx) {
 			if !w.node.Dead() {
 				mgr := w.mgr
 				t0 := c.S.Now()
+				if op.Arg(1) == 1 {
+					// the disk is full while the process shuts down (and has room again before the
+					// next start): what cannot be queued durably must stay recoverable
+					w.fs.Fail = func(string) error { c.S.Fault("disk.full-during-shutdown"); return syscall.ENOSPC }
+					for _, sid := range w.order {
+						s := w.sess[sid]
+						s.fullDiskEpoch = w.epoch
+						switch {
+						case s.stopRet:
+							s.stopRetBeforeFullDisk = true
+						case s.startInFlightAtCrash || s.stopInFlightAtCrash || s.stopRetBeforeCrash || s.activeAtCrash:
+							// the session went through a crash: this process recovered it as an orphan
+							// (its Stop sent or queued, its file removed), it is not an active session
+							s.orphanBeforeFullDisk = true
+						case s.startRet:
+							s.activeAtFullDisk = true
+						}
+					}
+				}
 				t := c.S.Spawn("op-gstop", w.node, func() { mgr.Stop() })
 				c.S.Join(t)
+				w.fs.Fail = nil
 				if st := cs.Knob("shutdown_s", 0); st > 0 && c.S.Now()-t0 >= time.Duration(st)*time.Second {
 					w.stopTimedOut = true
 					c.S.Fault("shutdown.timeout")
@@ -597,6 +653,12 @@ func c08Run(c *sim.Ctx) {
 		}
 		cat := "nocrash"
 		switch {
+		case s.stopRetBeforeFullDisk && w.epoch == s.fullDiskEpoch:
+			cat = "diskfull-at-shutdown-after-stop-returned"
+		case s.orphanBeforeFullDisk && w.epoch == s.fullDiskEpoch:
+			cat = "diskfull-at-shutdown-after-orphan-recovery"
+		case s.activeAtFullDisk && w.epoch == s.fullDiskEpoch:
+			cat = "diskfull-at-shutdown-while-active"
 		case s.stopInFlightAtCrash:
 			cat = "crash-during-stop"
 		case s.stopRetBeforeCrash:
@@ -632,7 +694,7 @@ func init() {
 			"radius.Client.SendAccounting (attribute encoding, gigaword split, Message-Authenticator, rate limiter)", "layeh/radius packet encode + parse"},
 		Stub: []string{"RADIUS server and UDP transport (sim.RadiusNet replaces radius.Exchange; layeh's UDP retransmit loop is not run)",
 			"file system under the accounting directory (sim.FS, process-crash model)"},
-		Rule:         "cases: 4-24 start/stop/counter/sleep/outage/ackloss/graceful-stop ops over <=3 sessions, crash at tape-chosen disk/network steps (also during a restart's own recovery work), in a quarter of the runs a short shutdown timeout (2-10 s) that a graceful stop during an outage runs into, restart from the surviving directory, fault-free tail; non-trivial = >=3 completed operations and (a fault fired or >2 context switches); distinct = distinct (case hash, schedule fingerprint)",
+		Rule:         "cases: 4-24 start/stop/counter/sleep/outage/ackloss/graceful-stop ops over <=3 sessions, crash at tape-chosen disk/network steps (also during a restart's own recovery work), in a quarter of the runs a short shutdown timeout (2-10 s) that a graceful stop during an outage runs into, restart from the surviving directory, a graceful stop during which the disk is full (every file creation fails with ENOSPC; room again before the next start), answers that arrive late but inside the client timeout (op slow), a motif (an Interim-Update still outstanding when its session is stopped, then a graceful restart), fault-free tail; non-trivial = >=3 completed operations and (a fault fired or >2 context switches); distinct = distinct (case hash, schedule fingerprint)",
 		QuickRuns:    20000,
 		ThoroughRuns: 1500000,
 		Assumptions: []string{"process-crash disk model (each syscall-level step atomic and durable; no power loss)", "per record at most MaxRetries-1 failed exchanges (the statement's retry budget)",
